@@ -1,11 +1,11 @@
 """C04 — START/END pairing delivers exactly each operation's per-thread event window."""
 from .. import vlib
-from ..translate import tr_handlers, tr_kevent
+from ..translate import tr_handlers, tr_kevent, tr_pairing
 from . import pairing_common as pc
 
-TRANSLATORS = [tr_kevent.translate, tr_handlers.translate]
+TRANSLATORS = [tr_kevent.translate, tr_handlers.translate, tr_pairing.translate]
 MODEL_TARGETS = ['theories/PairingCases.vo']
-PROOF_TARGETS = ['props/C04.vo']
+PROOF_TARGETS = ['props/C04.vo', 'theories/PairingRefine.vo']
 PROP_FILE = 'props/C04.v'
 ASSUMPTIONS = [
     'the nested dict state[tid][eventid] is modelled as an association list keyed (tid, eventid); dict iteration '
@@ -50,7 +50,7 @@ def gen(ctx, uni):
 def run(ctx, model_ok):
     uni = pc.Universe()
     hs = gen(ctx, uni)
-    res = vlib.run_impl('run_pairing.py', {'histories': hs})['results']
+    res = vlib.run_impl('run_pairing.py', {'histories': hs, 'declared': True})['results']
     ctx.evaluations = len(hs)
     ctx.rule = ('random event histories over 1-4 thread ids x 2-6 codes drawn from {trace-domain, decodable, '
                 'known-but-undecoded, unknown to the table} x the four qualifiers (START/END weighted), lengths 3..60 '
@@ -78,7 +78,7 @@ def run(ctx, model_ok):
         cases.append(pc.to_case(h, uni, r))
     # scale: sizes at which a bounded table, cache or queue would show; expectations written down by construction
     sc = pc.scale_histories(uni, ctx.quick())
-    sres = vlib.run_impl('run_pairing.py', {'histories': [h for _, h, _ in sc]}, timeout=3000)['results']
+    sres = vlib.run_impl('run_pairing.py', {'histories': [h for _, h, _ in sc], 'declared': True}, timeout=3000)['results']
     ctx.evaluations += len(sc)
     for (name, h, exp), r in zip(sc, sres):
         ctx.count('scale:' + name)
